@@ -357,6 +357,26 @@ func genFraming(L *loader) (string, any, []string) {
 		}
 		sb.WriteString(fmt.Sprintf("\ndef %s_minMessageSize : Nat := %s\n", p.alias, v))
 	}
+	// readN chunk size (rhp2, rhp3): `var chunk [1 << 14]byte`
+	for _, p := range []struct{ pkg, alias string }{{"rhp/v2", "rhp2"}, {"rhp/v3", "rhp3"}} {
+		n := "0"
+		if fd := L.funcs[coreMod+"/"+p.pkg+".readN"]; fd != nil {
+			ast.Inspect(fd.Body, func(nd ast.Node) bool {
+				if vs, ok := nd.(*ast.ValueSpec); ok && len(vs.Names) == 1 && vs.Names[0].Name == "chunk" {
+					if at, ok := vs.Type.(*ast.ArrayType); ok && at.Len != nil {
+						if s, ok := g.natExpr(at.Len, nil, nil); ok {
+							n = s
+						}
+					}
+				}
+				return true
+			})
+		}
+		if n == "0" {
+			g.fail("%s readN chunk size not found", p.alias)
+		}
+		sb.WriteString(fmt.Sprintf("def %s_readNChunk : Nat := %s\n", p.alias, n))
+	}
 	// rhp2 readMessage: the checks applied to the announced size, in order
 	if fd := L.funcs[coreMod+"/rhp/v2.Transport.readMessage"]; fd != nil {
 		var checks []string
